@@ -23,11 +23,11 @@ META = {
 SAFETY = ("OutOfBounds", "TypePunning", "DivisionByZero", "NegativeAllocation", "OOB")
 
 
-def extern_for(pkg):
+def extern_for(pkg, stop=True):
     cm = cfront.cmodule(pkg)
 
     def ext(name, args, run, g):
-        cr = cfront.CRun(cm, hyps=run.hyps + run.assumptions, prefix=f"c{len(run.events)}", stop_on=SAFETY)
+        cr = cfront.CRun(cm, hyps=run.hyps + run.assumptions, prefix=f"c{len(run.events)}", stop_on=SAFETY if stop else ())
         conv = []
         for a in args:
             if isinstance(a, kern.Ptr):
